@@ -7,7 +7,14 @@ import (
 type ssaFunction = ssa.Function
 
 // per-property adjustments of the exploration limits
-var propConfig = map[string]func(tier string, cfg *Config){}
+var propConfig = map[string]func(tier string, cfg *Config){
+	// the three-step histories of C19 over four tags and empty/non-empty texts are many short paths
+	"C19": func(tier string, cfg *Config) {
+		if cfg.MaxPaths < 400000 {
+			cfg.MaxPaths = 400000
+		}
+	},
+}
 
 var commonAssumptions = []string{
 	"go/packages + go/ssa (x/tools v0.29.0) build the SSA form faithfully; go/types Sizes for gc/amd64 give struct layouts",
